@@ -31,7 +31,8 @@ Proof. unfold u64_add. destruct (_ <? _); [exact I|]. destruct p; cbn; auto. Qed
 
 Lemma encoder_encode_safe p e b : (length b <= 8)%nat -> safe (encoder_encode enc_block p e b).
 Proof.
-  intros Lb. unfold encoder_encode. apply safe_bind; [apply u64_add_safe|]. intros wr _.
+  intros Lb. unfold encoder_encode. destruct (si_max_bs (e_si e) <? block_len b); [exact I|].
+  apply safe_bind; [apply u64_add_safe|]. intros wr _.
   destruct (match si_total (e_si e) with Some t => t <? wr | None => false end); [exact I|].
   destruct (N.ltb_spec 8 (N.of_nat (length b))); [lia|].
   apply safe_bind.
@@ -58,6 +59,7 @@ Proof.
   pose proof (md5_consume_inv e m I) as I1.
   assert (L : length (e_emitted_rev (md5_consume e m)) = length (e_frames_rev (md5_consume e m))) by (apply (inv_len _ I1)).
   unfold encoder_encode in H.
+  destruct (si_max_bs (e_si (md5_consume e m)) <? block_len blk); [discriminate|].
   apply bind_ok in H. destruct H as (wr & Hw & H).
   destruct (match si_total (e_si (md5_consume e m)) with Some t => t <? wr | None => false end); [discriminate|].
   destruct (8 <? N.of_nat (length blk)); [discriminate|].
